@@ -301,7 +301,7 @@ var identRe = func(s string) bool {
 // quote) and collects shapes that are known findings.
 type shape struct {
 	printable    bool
-	intSelector  bool // selector applied directly to an int literal: prints as a float prefix
+	intSelector  bool // selector applied directly to an int literal: printed as a float prefix before b2c2f52 (C20-1, repaired); kept to name a regression
 	forInNilKeys bool // for-in with three or more names: nil key/value
 }
 
@@ -486,7 +486,8 @@ func reprint(stream, src string, f *parser.File) {
 	}
 }
 
-// ---- known findings of the unchanged tree (probes) ----
+// ---- findings of the unchanged tree (probes): C20-1 and C20-2 are repaired in /repo (regression probes: firing is a
+// violation), C20-3 is still known ----
 
 func runFindingProbes() {
 	known := map[string]bool{}
